@@ -60,6 +60,7 @@ static int exec_op(jval *op)
 	if (!strcmp(a, "raise")) { raise(signo[sigidx(j_str(op, "s", "A"))]); return 0; }
 	if (!strcmp(a, "script")) { script[e] = j_get(op, "s"); return 0; }
 	if (!strcmp(a, "loop")) { ncb = 0; waits0 = (int)vt_nwaits; return event_base_loop(base, EVLOOP_NONBLOCK) < 0 ? -1 : 0; }
+	if (!strcmp(a, "reinit")) return event_reinit(base);
 	if (!strcmp(a, "basefree")) { int i; for (i = 1; i <= 4; i++) { /* events must not outlive their base's bookkeeping */ } event_base_free(base); base = NULL; return 0; }
 	return -98;
 }
